@@ -445,3 +445,90 @@ package basicnode
 //@   requires na != nil && na.w != nil && v != nil
 //@   assigns *na.w
 //@   ensures[C01] err == nil ==> datamodel.vkind(v.val) == datamodel.Kind_Link && na.w.x == datamodel.vlink(v.val)
+
+// ---- the remaining scalar assigns of the "any" builder: the builder leaves the invalid state
+//      exactly once and holds a fresh node of the assigned kind with the assigned value ----
+//@ func (*anyBuilder).AssignNull() (err)
+//@   rejects[C12] nb != nil && nb.kind != datamodel.Kind_Invalid
+//@   requires nb != nil && nb.kind == datamodel.Kind_Invalid
+//@   assigns nb.kind
+//@   ensures[C01,C12] err == nil && nb.kind == datamodel.Kind_Null
+//@ func (*anyBuilder).AssignBool(v) (err)
+//@   rejects[C12] nb != nil && nb.kind != datamodel.Kind_Invalid
+//@   requires nb != nil && nb.kind == datamodel.Kind_Invalid
+//@   assigns nb.kind, nb.scalarNode
+//@   ensures[C01,C12] err == nil && nb.kind == datamodel.Kind_Bool && fresh(nb.scalarNode) && dyntype(nb.scalarNode, "*plainBool") && *unbox(nb.scalarNode, "*plainBool") == v
+//@ func (*anyBuilder).AssignFloat(v) (err)
+//@   rejects[C12] nb != nil && nb.kind != datamodel.Kind_Invalid
+//@   requires nb != nil && nb.kind == datamodel.Kind_Invalid
+//@   assigns nb.kind, nb.scalarNode
+//@   ensures[C01,C12] err == nil && nb.kind == datamodel.Kind_Float && fresh(nb.scalarNode) && dyntype(nb.scalarNode, "*plainFloat") && *unbox(nb.scalarNode, "*plainFloat") == v
+//@ func (*anyBuilder).AssignLink(v) (err)
+//@   rejects[C12] nb != nil && nb.kind != datamodel.Kind_Invalid
+//@   requires nb != nil && nb.kind == datamodel.Kind_Invalid
+//@   assigns nb.kind, nb.scalarNode
+//@   ensures[C01,C12] err == nil && nb.kind == datamodel.Kind_Link && fresh(nb.scalarNode) && dyntype(nb.scalarNode, "*plainLink") && unbox(nb.scalarNode, "*plainLink").x == v
+
+// ---- the scalar builders: an assign of the builder's own kind stores exactly the value, Build
+//      returns the node that was written, Reset starts a fresh one (the node built before is
+//      not touched again) ----
+//@ func (*plainInt__Assembler).AssignInt(v) (err)
+//@   requires na != nil && na.w != nil
+//@   assigns *na.w
+//@   ensures[C01,C12] err == nil && *na.w == v
+//@ func (*plainBool__Assembler).AssignBool(v) (err)
+//@   requires na != nil && na.w != nil
+//@   assigns *na.w
+//@   ensures[C01,C12] err == nil && *na.w == v
+//@ func (*plainFloat__Assembler).AssignFloat(v) (err)
+//@   requires na != nil && na.w != nil
+//@   assigns *na.w
+//@   ensures[C01,C12] err == nil && *na.w == v
+//@ func (*plainString__Assembler).AssignString(v) (err)
+//@   requires na != nil && na.w != nil
+//@   assigns *na.w
+//@   ensures[C01,C12] err == nil && *na.w == v
+//@ func (*plainLink__Assembler).AssignLink(v) (err)
+//@   requires na != nil && na.w != nil
+//@   assigns *na.w
+//@   ensures[C01,C12] err == nil && na.w.x == v
+//@ func (*plainInt__Builder).Build() (n)
+//@   requires nb != nil
+//@   assigns nothing
+//@   ensures[C01,C12] n == iface(nb.plainInt__Assembler.w)
+//@ func (*plainBool__Builder).Build() (n)
+//@   requires nb != nil
+//@   assigns nothing
+//@   ensures[C01,C12] n == iface(nb.plainBool__Assembler.w)
+//@ func (*plainFloat__Builder).Build() (n)
+//@   requires nb != nil
+//@   assigns nothing
+//@   ensures[C01,C12] n == iface(nb.plainFloat__Assembler.w)
+//@ func (*plainString__Builder).Build() (n)
+//@   requires nb != nil
+//@   assigns nothing
+//@   ensures[C01,C12] n == iface(nb.plainString__Assembler.w)
+//@ func (*plainLink__Builder).Build() (n)
+//@   requires nb != nil
+//@   assigns nothing
+//@   ensures[C01,C12] n == iface(nb.plainLink__Assembler.w)
+//@ func (*plainInt__Builder).Reset()
+//@   requires nb != nil
+//@   assigns *nb
+//@   ensures[C01,C12] fresh(nb.plainInt__Assembler.w) && *nb.plainInt__Assembler.w == 0
+//@ func (*plainBool__Builder).Reset()
+//@   requires nb != nil
+//@   assigns *nb
+//@   ensures[C01,C12] fresh(nb.plainBool__Assembler.w) && *nb.plainBool__Assembler.w == false
+//@ func (*plainFloat__Builder).Reset()
+//@   requires nb != nil
+//@   assigns *nb
+//@   ensures[C01,C12] fresh(nb.plainFloat__Assembler.w)
+//@ func (*plainString__Builder).Reset()
+//@   requires nb != nil
+//@   assigns *nb
+//@   ensures[C01,C12] fresh(nb.plainString__Assembler.w) && *nb.plainString__Assembler.w == ""
+//@ func (*plainLink__Builder).Reset()
+//@   requires nb != nil
+//@   assigns *nb
+//@   ensures[C01,C12] fresh(nb.plainLink__Assembler.w) && nb.plainLink__Assembler.w.x == nil
